@@ -149,4 +149,48 @@ theorem bootstrap_write_guards :
        ("corruptIndexRecovery:wr.truncateIndex", "canWrite")] ∧
     Gen.Journal.bootstrapProcessArgs = ["canWrite", "wr.indexed"] := by decide
 
+/-! ### C41: lock acquisition and read-only guards of journal.go -/
+
+/-- `newJournalLock`: try / timed lock; on timeout close the lock and return `ErrDatabaseLocked`
+(fail-fast) or read-only mode with a nil lock; Exclusive only together with a held lock -/
+theorem lock_flow :
+    Gen.Journal.newJournalLockFlow =
+      ["call fslock.New", "if err != nil", "if timeout == 0", "call lock.TryLock", "if errors.Is(err, fslock.ErrLocked)",
+       "call lock.LockWithTimeout", "if errors.Is(err, fslock.ErrTimeout)", "call lock.Close", "if failOnTimeout",
+       "if err != nil", "call lock.Close"] ∧
+    Gen.Journal.newJournalLockReturns =
+      ["return nil, chunks.ExclusiveAccessMode_ReadOnly, err",
+       "return nil, chunks.ExclusiveAccessMode_ReadOnly, ErrDatabaseLocked",
+       "return nil, chunks.ExclusiveAccessMode_ReadOnly, nil",
+       "return nil, chunks.ExclusiveAccessMode_ReadOnly, err",
+       "return lock, chunks.ExclusiveAccessMode_Exclusive, nil"] ∧
+    Gen.Journal.readOnlyBody = "{ return jm.lock == nil }" ∧
+    Gen.Journal.journalManifestFirstStmt = ["Update: if jm.readOnly()", "UpdateGCGen: if jm.readOnly()"] := by decide
+
+/-- every write path of journal.go and the condition that dominates it: `Persist`, `ConjoinAll`,
+`PruneTableFiles`, `CopyTableFile`, `Update`, `UpdateGCGen` return early when `readOnly()`;
+`Close` and `bootstrapJournalWriter` write only under `!readOnly()` / `canCreate`;
+`trueUpBackingManifest` returns before `backing.Update` when read-only.  (`createJournalWriter` and
+`deleteJournalAndIndexFiles` are reached only through the guarded `createProtectedJournalWriter` /
+`dropJournalWriter` calls listed here.) -/
+theorem journal_write_guards :
+    Gen.Journal.journalWriteGuards =
+      [("bootstrapJournalWriter:j.createProtectedJournalWriter", "not(err != nil) && canCreate && !ok"),
+       ("bootstrapJournalWriter:j.wr.bootstrapJournal", "not(err != nil) && canCreate && !ok && not(err != nil)"),
+       ("bootstrapJournalWriter:j.wr.commitRootHash", "not(err != nil) && canCreate && !ok && not(err != nil) && not(err != nil) && not(err != nil) && ok"),
+       ("bootstrapJournalWriter:j.wr.bootstrapJournal", "not(err != nil) && not(canCreate && !ok) && not(err != nil) && not(!ok)"),
+       ("bootstrapJournalWriter:j.wr.commitRootHash", "not(err != nil) && not(canCreate && !ok) && not(err != nil) && not(!ok) && not(err != nil) && root.IsEmpty() && not(err != nil) && ok && canCreate"),
+       ("createProtectedJournalWriter:createJournalWriter", ""),
+       ("trueUpBackingManifest:backing.Update", "not(err != nil) && not(!ok) && not(backing.readOnly())"),
+       ("Persist:j.wr.writeCompressedChunk", "not(j.backing.readOnly()) && not(err != nil)"),
+       ("ConjoinAll:j.persister.ConjoinAll", "not(j.backing.readOnly())"),
+       ("PruneTableFiles:j.persister.PruneTableFiles", "not(j.backing.readOnly())"),
+       ("CopyTableFile:j.persister.CopyTableFile", "not(j.backing.readOnly())"),
+       ("Update:j.flushToBackingManifest", "not(j.backing.readOnly()) && not(j.wr == nil) && not(j.contents.gcGen != next.gcGen) && not(j.contents.lock != lastLock) && !equalSpecs(j.contents.specs, next.specs)"),
+       ("Update:j.wr.commitRootHash", "not(j.backing.readOnly()) && not(j.wr == nil) && not(j.contents.gcGen != next.gcGen) && not(j.contents.lock != lastLock)"),
+       ("UpdateGCGen:j.flushToBackingManifest", "not(j.backing.readOnly()) && not(j.wr == nil) && not(j.contents.lock != lastLock)"),
+       ("UpdateGCGen:j.dropJournalWriter", "not(j.backing.readOnly()) && not(j.wr == nil) && not(j.contents.lock != lastLock) && not(err != nil) && not(err != nil) && !containsJournalSpec(latest.specs)"),
+       ("dropJournalWriter:deleteJournalAndIndexFiles", "not(curr == nil) && not(err != nil)"),
+       ("Close:j.flushToBackingManifest", "j.wr != nil && !j.backing.readOnly()")] := by rfl
+
 end DoltVerif.Tie.Journal
